@@ -241,9 +241,28 @@ pub fn padded(k: usize, pad: usize, r: &mut Rng) -> Term {
 
 /// As `padded`, with the object's own name path of the given shape (where the kind has one).
 pub fn padded_with_path(k: usize, pad: usize, r: &mut Rng, root: bool, nseg: usize) -> Term {
-    // a filler child: a BufferData whose payload is `pad` bytes (adds its own few header bytes)
-    let filler = || Term::BufferData(vec![0xA5; pad]);
+    // filler children: a BufferData whose payload is `pad` bytes (adds its own few header bytes);
+    // for odd `pad` additionally preceded by integer constants of every width delivered straight to
+    // the parent's sink (word/dword/qword entry points rather than one pre-assembled slice)
     let path = PathT { root, segs: (0..nseg).map(|_| gen_seg(r)).collect() };
+    if pad % 2 == 1 && matches!(k, 0 | 1 | 4 | 5 | 6 | 7 | 9 | 10 | 11 | 14) {
+        let ints = vec![Term::U64(0x1_0000_0000 + pad as u64), Term::U32(0x1_0000 + pad as u32), Term::U16(0x100 + (pad as u16 & 0xff)), Term::U64(u64::MAX - pad as u64)];
+        let mut body = ints;
+        body.push(Term::BufferData(vec![0x5A; pad.saturating_sub(27)]));
+        return match k {
+            0 => Term::Package(body),
+            1 => Term::PackageBuilder(body),
+            4 => Term::Device(path, body),
+            5 => Term::Scope(path, body),
+            6 => Term::ScopeRaw(path, body),
+            7 => Term::Method { path, args: 1, serialized: false, body },
+            9 => Term::If(Box::new(Term::U64(0xFFFF_FFFF_0000_0000 | pad as u64)), body),
+            10 => Term::Else(body),
+            11 => Term::While(Box::new(Term::Cmp(1, Box::new(Term::Local(0)), Box::new(Term::U64(1 << 40)))), body),
+            _ => Term::PowerResource { path, level: 2, order: 3, body },
+        };
+    }
+    let filler = || Term::BufferData(vec![0xA5; pad]);
     match k {
         0 => Term::Package(vec![filler()]),
         1 => Term::PackageBuilder(vec![filler()]),
